@@ -329,10 +329,22 @@ func c19InputsKeyedOnce(p *Prog) *RuleResult {
 			if !ok {
 				return
 			}
+			// the call that writes the entry: the format text may be a constant argument or may have
+			// been hoisted into a local before the loop
+			if !strings.HasSuffix(calleeFullName(c), "helpers.Joiner).AddString") {
+				return
+			}
+			uses := false
 			for _, a := range c.Call.Args {
-				if s, ok := constString(a); ok && strings.Contains(s, "\"bytesInOutput\"") {
-					site = c
-				}
+				operandSlice(a, func(v ssa.Value) bool {
+					if s, ok := constString(v); ok && strings.Contains(s, "\"bytesInOutput\"") {
+						uses = true
+					}
+					return true
+				})
+			}
+			if uses && (site == nil || blockInLoop(b)) {
+				site = c
 			}
 		})
 		if site == nil {
